@@ -6,6 +6,10 @@ pcorr : pair_correlation_2d/3d (explicit boundary, fraction=1, default max_rel_n
         (b) a brute-force oracle whose 2-D edge correction is computed by angle-interval
             arithmetic, independent of the code's formulas (tolerance 1e-6),
         (c) the code itself on a permuted and on a translated copy (tolerance 1e-9).
+gr    : the public signatures with all keyword options on inhomogeneous point sets against a
+        brute-force g(r) over ALL pairs within the cutoff (2-D arcs by vectorised angle-interval
+        arithmetic, 3-D areas from the code's own area_3d_bounded); the documented RuntimeError
+        "too many particle pairs" is answered by doubling max_rel_ndensity and must be justified.
 arc   : arclen_2d_bounded against angle-interval arithmetic (1e-6 of the full circle),
         area_3d_bounded against slice quadrature (1e-4 of the full sphere; supporting evidence).
 arcfn : function mode for the 2-D edge correction: circle_cap_arclen, circle_corner_arclen and
@@ -214,9 +218,160 @@ def gen_arcfn(rng):
                 items=[[float(v).hex() for v in it] for it in items])
 
 
+# ------------------------------------------------------------------------------------------
+# gr stream: the public signatures of pair_correlation_2d/3d on inhomogeneous point sets
+
+GQ = 1024            # coordinates are integers / 1024: sums, differences and translations are float-exact
+
+
+def _blob(rng, dim, c, rad, m):
+    """m points uniform in the ball of radius `rad` around c"""
+    out = []
+    while len(out) < m:
+        v = [rng.uniform(-1, 1) for _ in range(dim)]
+        if sum(t * t for t in v) <= 1:
+            out.append([c[a] + rad * v[a] for a in range(dim)])
+    return out
+
+
+def gen_gr(rng):
+    """point set classes: uniform / one aggregate in a dilute background / two clusters of very
+    different density / a dense line / a jittered lattice; options of the public signature:
+    boundary given or automatic, ndensity, max_rel_ndensity, fraction = 1 explicitly, p_indices,
+    handle_edge, dr dividing the cutoff or not (or larger than it), cutoff larger than the box"""
+    dim = rng.choice([2, 2, 2, 3])
+    kind = rng.choice(["uniform", "aggregate", "aggregate", "two_clusters", "line", "lattice"])
+    L = [rng.choice([6.0, 10.0, 20.0, 40.0]) * rng.uniform(0.7, 1.3) for _ in range(dim)]
+    org = [rng.choice([0.0, rng.uniform(-50, 50)]) for _ in range(dim)]
+    n = rng.choice([8, 20, 40, 80, 150]) if dim == 2 else rng.choice([8, 20, 40, 80])
+
+    def unif(m):
+        return [[rng.uniform(0, L[a]) for a in range(dim)] for _ in range(m)]
+
+    def centre():
+        c = [rng.uniform(0, L[a]) for a in range(dim)]
+        for a in range(dim):
+            u = rng.random()
+            if u < 0.15:
+                c[a] = 0.0                        # aggregate at a side / in a corner of the box
+            elif u < 0.3:
+                c[a] = L[a]
+        return c
+    scale = min(L)
+    if kind == "uniform":
+        pts = unif(n)
+        rad = scale / 4
+    elif kind == "aggregate":
+        m = max(3, int(n * rng.choice([0.2, 0.4, 0.6, 0.8])))
+        rad = scale * rng.choice([0.02, 0.05, 0.1, 0.2])
+        pts = _blob(rng, dim, centre(), rad, m) + unif(max(3, n - m))
+    elif kind == "two_clusters":
+        m1 = max(3, int(n * rng.choice([0.3, 0.5, 0.6])))
+        m2 = max(3, int(n * rng.choice([0.1, 0.2, 0.3])))
+        rad = scale * rng.choice([0.03, 0.08, 0.15])
+        pts = (_blob(rng, dim, centre(), rad, m1)
+               + _blob(rng, dim, centre(), rad * rng.choice([1.0, 2.0, 4.0]), m2)
+               + unif(max(3, n - m1 - m2)))
+    elif kind == "line":
+        m = max(3, int(n * rng.choice([0.4, 0.6, 0.8])))
+        a0, a1 = centre(), centre()
+        if rng.random() < 0.4:                    # parallel to an axis (possibly ON a side of the box)
+            ax = rng.randrange(dim)
+            a1 = [a1[a] if a == ax else a0[a] for a in range(dim)]
+        jit = rng.choice([0.0, 0.01, 0.05]) * scale
+        rad = scale * rng.choice([0.05, 0.1, 0.3])
+        f = rng.choice([1.0, 0.3, 0.1])           # the dense part may be a short stretch of the segment
+        pts = []
+        for _ in range(m):
+            t = rng.random() * f
+            pts.append([a0[a] + t * (a1[a] - a0[a]) + rng.uniform(-jit, jit) for a in range(dim)])
+        pts += unif(max(3, n - m))
+    else:
+        per = max(2, int(round(n ** (1.0 / dim))))
+        sp = [L[a] / (per - 1) for a in range(dim)]
+        jit = rng.choice([0.0, 0.0, 0.02, 0.2])
+        pts = [[]]
+        for a in range(dim):
+            pts = [p + [k * sp[a]] for p in pts for k in range(per)]
+        pts = [[p[a] + rng.uniform(-jit, jit) * sp[a] for a in range(dim)] for p in pts]
+        rad = max(sp)
+    def fold(v, hi_):                            # reflect at the sides of the generating box
+        v = -v if v < 0 else v
+        v = 2 * hi_ - v if v > hi_ else v
+        return min(max(v, 0.0), hi_)
+    pts = [[fold(p[a], L[a]) for a in range(dim)] for p in pts]
+    for _ in range(rng.choice([0, 0, 0, 1, 3])):  # coincident particles
+        pts.append(list(rng.choice(pts)))
+    # boundary: automatic (bounding box of the particles) or given: exactly the generating box,
+    # (some particles then sit on its sides / corners), a wider one, or one that cuts particles off
+    bmode = rng.choice(["auto", "auto", "given", "given-corners", "given-wide", "given-cuts"])
+    lo, hi = [0.0] * dim, list(L)
+    if bmode == "given-corners":
+        for _ in range(rng.randint(1, 3)):
+            pts.append([rng.choice([0.0, L[a]]) for a in range(dim)])
+    elif bmode == "given-wide":
+        lo = [-rng.choice([0.0, 0.5, 3.0]) for _ in range(dim)]
+        hi = [L[a] + rng.choice([0.0, 0.5, 3.0]) for a in range(dim)]
+    elif bmode == "given-cuts":
+        a = rng.randrange(dim)
+        if rng.random() < 0.5:
+            lo[a] = L[a] * rng.choice([0.05, 0.2])
+        else:
+            hi[a] = L[a] * rng.choice([0.95, 0.8])
+    rng.shuffle(pts)
+    ipts = [[int(round((org[a] + p[a]) * GQ)) for a in range(dim)] for p in pts]
+    box = None if bmode == "auto" else [[int(round((org[a] + lo[a]) * GQ)),
+                                         int(round((org[a] + hi[a]) * GQ))] for a in range(dim)]
+    # cutoff: around the size of the dense structure, a few mean spacings, or larger than the box
+    u = rng.random()
+    if u < 0.45:
+        cutoff = rad * rng.choice([0.5, 1.0, 2.0, 4.0])
+    elif u < 0.9:
+        vol = 1.0
+        for a in range(dim):
+            vol *= L[a]
+        cutoff = (vol / len(pts)) ** (1.0 / dim) * rng.choice([1.0, 2.0, 3.0, 5.0])
+    else:
+        cutoff = math.sqrt(sum(v * v for v in L)) * rng.choice([0.6, 1.05, 1.3])
+    cutoff *= rng.uniform(0.9, 1.1)
+    u = rng.random()
+    nb = rng.randint(2, 14)
+    if u < 0.45:
+        dr = cutoff / nb                                   # divides (up to rounding)
+    elif u < 0.9:
+        dr = cutoff / (nb + rng.uniform(0.1, 0.9))         # does not divide: partial last bin
+    elif u < 0.95:
+        dr = cutoff * rng.uniform(1.1, 3.0)                # a single bin wider than the cutoff
+    else:
+        dr = 0.5                                           # the default
+    if rng.random() < 0.3:                                 # dyadic: bin edges are exact
+        dr = max(1, round(dr * 64)) / 64.0
+        cutoff = round(cutoff * 64) / 64.0 if rng.random() < 0.5 else cutoff
+    if cutoff / dr > 60:
+        dr = cutoff / 60
+    nall = len(ipts)
+    p_indices, p_kind = None, None
+    if bmode != "given-cuts" and rng.random() < 0.35:
+        k = rng.choice([1, 2, max(1, nall // 4), max(1, nall // 2), nall])
+        p_indices = rng.sample(range(nall), k)
+        if rng.random() < 0.5:
+            p_indices.sort()
+        p_kind = rng.choice(["list", "array"])
+    return dict(stream="gr", dim=dim, kind=kind, bmode=bmode, pts=ipts, box=box,
+                cutoff=float(cutoff).hex(), dr=float(dr).hex(),
+                ndensity_factor=rng.choice([None, None, None, 0.25, 0.5, 2.0, 4.0]),
+                max_rel_ndensity=rng.choice([None, None, None, 1, 2, 3.5, 5, 20, 50]),
+                fraction=rng.choice([None, None, 1.0, 1]), p_indices=p_indices, p_kind=p_kind,
+                handle_edge=rng.random() < 0.85, index=rng.choice(["range", "offset", "shuffled"]),
+                extra_col=rng.random() < 0.3, perm=rng.randint(0, 10 ** 6),
+                shift=[rng.randint(-60 * GQ, 60 * GQ) for _ in range(dim)])
+
+
 def gen_cases(ctx):
     for i in range(ctx.n(250, 4000)):
         yield gen_pcorr(ctx.rng("pcorr", i))
+    for i in range(ctx.n(400, 6000)):
+        yield gen_gr(ctx.rng("gr", i))
     for i in range(ctx.n(250, 4000)):
         yield gen_arc(ctx.rng("arc", i))
     for i in range(ctx.n(300, 6000)):
@@ -397,6 +552,307 @@ def run_pcorr_case(ctx, inp):
     res.nontrivial = cut >= 1 and nonempty >= 2
     if res.nontrivial and not res.viol and dim == 2:
         res.sample = dict(stream="pcorr", n=n, cutoff=inp["cutoff"], dr=inp["dr"], g=g)
+    return res
+
+
+# ------------------------------------------------------------------------------------------
+# gr stream: run + brute-force oracle (floats; independent of the Lean model)
+
+def inside_angle_vec(px, py, r, box):
+    """vectorised `inside_angle`: total angle of each circle (px[i], py[i], r[i]) inside the closed
+    rectangle; crossing angles with the four side lines + midpoint tests"""
+    (x0, x1), (y0, y1) = box
+    m = len(r)
+    crit = np.full((m, 10), -np.pi)
+    crit[:, 1] = np.pi
+    col = 2
+    for c in ((x0 - px) / r, (x1 - px) / r):
+        ok = (c > -1) & (c < 1)
+        a = np.arccos(np.clip(c, -1, 1))
+        crit[:, col] = np.where(ok, a, -np.pi)
+        crit[:, col + 1] = np.where(ok, -a, -np.pi)
+        col += 2
+    for sv in ((y0 - py) / r, (y1 - py) / r):
+        ok = (sv > -1) & (sv < 1)
+        a = np.arcsin(np.clip(sv, -1, 1))
+        crit[:, col] = np.where(ok, a, -np.pi)
+        crit[:, col + 1] = np.where(ok, np.where(a >= 0, np.pi - a, -np.pi - a), -np.pi)
+        col += 2
+    crit.sort(axis=1)
+    lo, hi = crit[:, :-1], crit[:, 1:]
+    mid = 0.5 * (lo + hi)
+    x = px[:, None] + r[:, None] * np.cos(mid)
+    y = py[:, None] + r[:, None] * np.sin(mid)
+    eps = 1e-12 * np.maximum(1.0, r)[:, None]
+    ins = (x >= x0 - eps) & (x <= x1 + eps) & (y >= y0 - eps) & (y <= y1 + eps)
+    return np.where(ins, hi - lo, 0.0).sum(axis=1)
+
+
+TOO_MANY = "too many particle pairs"
+GR_MAX_ARRAY = 4e6          # harness-side bound on len(pos) * max_p_count (the code's own is 1e8)
+
+
+def _gr_call(static, dim, X, idx, extra, box, cutoff, dr, nd, mrd, fraction, p_indices, p_kind, he):
+    import pandas as pd
+    data = {COLS[k]: X[:, k] for k in range(dim)}
+    if extra:
+        data["mass"] = np.arange(len(X), dtype=float)
+    f = pd.DataFrame(data, index=idx)
+    fn = static.pair_correlation_2d if dim == 2 else static.pair_correlation_3d
+    kw = dict(dr=dr, handle_edge=he)
+    if box is not None:
+        kw["boundary"] = tuple(float(v) for b in box for v in b)
+    if nd is not None:
+        kw["ndensity"] = nd
+    if mrd is not None:
+        kw["max_rel_ndensity"] = mrd
+    if fraction is not None:
+        kw["fraction"] = fraction
+    if p_indices is not None:
+        kw["p_indices"] = np.array(p_indices) if p_kind == "array" else list(p_indices)
+    return fn(f, cutoff, **kw)
+
+
+def run_gr_case(ctx, inp):
+    import random
+    from trackpy import static
+    res = Result()
+    res.stat("gr_cases")
+    dim = inp["dim"]
+    res.stat("gr_kind_" + inp["kind"])
+    res.stat("gr_boundary_" + inp["bmode"])
+    X = np.array(inp["pts"], dtype=float) / GQ
+    cutoff, dr = float.fromhex(inp["cutoff"]), float.fromhex(inp["dr"])
+    box = None if inp["box"] is None else [[b[0] / GQ, b[1] / GQ] for b in inp["box"]]
+    he = inp["handle_edge"]
+    nall = len(X)
+    if inp["index"] == "range":
+        idx = list(range(nall))
+    elif inp["index"] == "offset":
+        idx = list(range(100, 100 + nall))
+    else:
+        idx = random.Random(inp["perm"] + 1).sample(range(3 * nall + 5), nall)
+    P0 = inp["p_indices"]
+
+    def world(Xv, boxv):
+        """(inside mask, effective box, density) of a particle table as the property reads it"""
+        if boxv is None:
+            eb = [[float(Xv[:, k].min()), float(Xv[:, k].max())] for k in range(dim)]
+            ins = np.ones(len(Xv), bool)
+        else:
+            eb = boxv
+            ins = np.all([(Xv[:, k] >= eb[k][0]) & (Xv[:, k] <= eb[k][1]) for k in range(dim)], axis=0)
+        vol = 1.0
+        for b in eb:
+            vol *= b[1] - b[0]
+        return ins, eb, vol
+    ins, ebox, vol = world(X, box)
+    n = int(ins.sum())
+    res.stat("gr_outside_rows", nall - n)
+    if n < 2 or not vol > 0:
+        res.stat("gr_degenerate_skipped")
+        return res
+    natural = (n - 1) / vol
+    nd = None if inp["ndensity_factor"] is None else inp["ndensity_factor"] * natural
+    dens = natural if nd is None else nd
+    Xin = X[ins]
+    sel = np.arange(n) if P0 is None else np.array(P0)       # p_indices only without cut-off rows
+    Psel = Xin[sel]
+    # distances of every selected particle to every particle (the definition: ALL pairs)
+    D = np.sqrt(((Psel[:, None, :] - Xin[None, :, :]) ** 2).sum(-1))
+    within = D < cutoff
+    cnt = within.sum(axis=1)                                   # includes the particle itself
+    near_cut = bool((np.abs(D - cutoff) <= 1e-9 * cutoff).any())
+    edges0 = np.arange(0, cutoff + dr, dr)
+
+    def slots(mrd):
+        ball = np.pi * (edges0.max() + dr) ** 2 if dim == 2 else (4. / 3.) * np.pi * (edges0.max() + dr) ** 3
+        v = ball * dens * mrd
+        return int(v), abs(v - round(v)) < 1e-9 * max(1.0, v)
+    mrd = inp["max_rel_ndensity"]
+    mrd_eff = 10 if mrd is None else mrd
+    k0, _ = slots(mrd_eff)
+    if k0 <= 1:
+        # EXCLUDED CLASS (reported as a defect of the unchanged tree, not silenced by an oracle):
+        # a sample so sparse for this cutoff that max_p_count = int(ball * ndensity *
+        # max_rel_ndensity) is 0 or 1 makes cKDTree.query return nothing / a 1-D array and
+        # pair_correlation_* dies with ValueError / IndexError instead of returning g(r) (= 0
+        # wherever there are no pairs) or the documented RuntimeError.
+        res.stat("gr_sparse_slots_le_1_skipped")
+        return res
+    if len(sel) * k0 > GR_MAX_ARRAY:
+        res.stat("gr_too_large_skipped")
+        return res
+    over0 = int((cnt >= k0).sum())
+    if over0 and over0 < len(sel):
+        res.stat("gr_first_call_partial_overflow")     # some, not all, particles exceed their slots
+    elif over0:
+        res.stat("gr_first_call_total_overflow")
+
+    def attempt(Xv, idxv, boxv, ndv, pidx, mrd_first):
+        """call as a user would: the documented RuntimeError 'too many particle pairs' is answered
+        by doubling max_rel_ndensity; -> ('ok', edges, g, mrd used, refusals) | ('refused', …) |
+        ('raise', repr)"""
+        cur, refusals = mrd_first, []
+        while True:
+            eff = 10 if cur is None else cur
+            k, k_border = slots(eff)
+            if len(sel) * k > GR_MAX_ARRAY:
+                return ("refused", refusals)
+            try:
+                e, g = _gr_call(static, dim, Xv, idxv, inp["extra_col"], boxv, cutoff, dr, ndv, cur,
+                                inp["fraction"], pidx, inp["p_kind"], he)
+                return ("ok", np.asarray(e, float), np.asarray(g, float), cur, refusals)
+            except RuntimeError as ex:
+                if TOO_MANY not in str(ex):
+                    return ("raise", repr(ex))
+                refusals.append((eff, k, k_border))
+                cur = eff * 2
+            except MemoryError as ex:                      # documented as well; never expected here
+                return ("raise", repr(ex))
+            except Exception as ex:  # noqa
+                return ("raise", repr(ex))
+    out = attempt(X, idx, box, nd, P0, mrd)
+    if out[0] == "raise":
+        res.violation("property-violation", "pair_correlation_%dd raised %s" % (dim, out[1]),
+                      signature=dict(stream="gr", what="raises", dim=dim))
+        return res
+    refusals = out[-1]
+    res.stat("gr_refusals", len(refusals))
+    if refusals:
+        res.stat("gr_cases_refused_at_first")
+    # a refusal is the documented answer only when some selected particle has at least max_p_count
+    # particles (itself included) within the cutoff
+    for eff, k, k_border in refusals:
+        if not k_border and not near_cut and not (cnt >= k).any():
+            res.violation("property-violation", "RuntimeError 'too many particle pairs' at "
+                          "max_rel_ndensity=%r (max_p_count=%d) although no particle has more than %d "
+                          "particles within the cutoff (itself included)" % (eff, k, int(cnt.max())),
+                          signature=dict(stream="gr", what="unjustified-refusal", dim=dim))
+            return res
+    if out[0] == "refused":
+        res.stat("gr_never_returned")
+        return res
+    _, edges, g, mrd_used, _ = out
+    nb = len(edges) - 1
+    # ---- bin edges: 0, dr, 2 dr, ... reaching the cutoff with at most one bin beyond it -------
+    ok_edges = (nb >= 1 and len(g) == nb and edges[0] == 0
+                and np.all(np.abs(np.diff(edges) - dr) <= 1e-9 * dr)
+                and edges[-1] >= cutoff * (1 - 1e-9)
+                and (nb < 2 or edges[-2] <= cutoff * (1 + 1e-9)))
+    if not ok_edges:
+        res.violation("property-violation", "bin edges are not 0, dr, 2 dr, ... up to the first "
+                      "edge >= cutoff (cutoff=%r dr=%r)" % (cutoff, dr), impl=[float(v) for v in edges],
+                      signature=dict(stream="gr", what="edges", dim=dim))
+        return res
+    # ---- brute-force g(r) over ALL ordered pairs (selected particle, any particle), 0 < d < cutoff
+    ii, jj = np.nonzero(within & (D > 0))
+    d = D[ii, jj]
+    res.stat("gr_pairs", len(d))
+    res.stat("gr_coincident_pairs", int(((D == 0).sum() - len(sel))))
+    ebf = [[float(v) for v in b] for b in ebox]
+    if not he:
+        arc = 2 * np.pi * d if dim == 2 else 4 * np.pi * d ** 2
+        undefined = np.zeros(len(d), bool)
+        shaky = undefined
+    elif dim == 2:
+        arc = d * inside_angle_vec(Psel[ii, 0], Psel[ii, 1], d, ebf) if len(d) else d
+        undefined = arc < 1e-6 * d                 # the code's own threshold is 1e-5 d
+        shaky = (arc >= 1e-6 * d) & (arc < 1e-3 * d)
+    else:
+        # 3-D: the code's own area_3d_bounded (checked against quadrature in the `arc` stream)
+        arc = static.area_3d_bounded(d.copy(), Psel[ii], np.array(ebf)) if len(d) else d
+        undefined = np.isnan(arc)
+        shaky = (~undefined) & (arc < 1e-5 * d ** 2)
+    kbin = np.minimum(np.searchsorted(edges, d, side="right") - 1, nb - 1)
+    skip = np.zeros(nb, bool)                       # bins not judged (float-borderline membership)
+    for k in range(nb + 1):
+        hit = np.abs(d - edges[k]) <= 1e-9 * max(1.0, edges[k])
+        if hit.any():
+            skip[max(k - 1, 0)] = True
+            skip[min(k, nb - 1)] = True
+    if near_cut:
+        skip[min(int(np.searchsorted(edges, cutoff, side="right")) - 1, nb - 1)] = True
+        if nb >= 2 and abs(edges[-2] - cutoff) <= 1e-9 * cutoff:
+            skip[nb - 2] = True
+    for k in set(kbin[shaky].tolist()):
+        skip[k] = True
+    res.stat("gr_bins", nb)
+    res.stat("gr_bins_not_judged", int(skip.sum()))
+    good = ~undefined
+    og = np.zeros(nb)
+    np.add.at(og, kbin[good], 1.0 / arc[good])
+    og /= dens * len(sel) * dr
+    undef_bin = np.zeros(nb, bool)
+    undef_bin[kbin[undefined]] = True
+    res.stat("gr_undefined_bins", int(undef_bin.sum()))
+    if edges[-1] > cutoff * (1 + 1e-9):
+        res.stat("gr_partial_last_bin")
+    npairs_bin = np.bincount(kbin, minlength=nb)
+
+    def compare(gv, what, label):
+        for k in range(nb):
+            if skip[k]:
+                continue
+            if undef_bin[k]:
+                if not math.isnan(gv[k]):
+                    res.violation("property-violation", "%sbin [%g, %g) holds a pair whose circle/"
+                                  "sphere has no measurable part inside the box (undefined weight) "
+                                  "but g = %r is reported" % (label, edges[k], edges[k + 1], gv[k]),
+                                  impl=[None if math.isnan(v) else float(v) for v in gv],
+                                  signature=dict(stream="gr", what="undefined-bin-finite", dim=dim))
+                    return False
+                continue
+            if math.isnan(gv[k]) or not close(float(gv[k]), float(og[k]), 1e-6):
+                res.violation("property-violation", "%sg(r) in bin [%g, %g) (%d ordered pairs within "
+                              "the cutoff) is %r but the edge-corrected pair histogram normalised by "
+                              "density, N and dr is %r (kind=%s n=%d max_rel_ndensity=%r after %d "
+                              "refusal(s))" % (label, edges[k], edges[k + 1], npairs_bin[k],
+                                               float(gv[k]), float(og[k]), inp["kind"], n, mrd_used,
+                                               len(refusals)),
+                              impl=[None if math.isnan(v) else float(v) for v in gv],
+                              model=[float(v) for v in og],
+                              signature=dict(stream="gr", what=what, dim=dim))
+                return False
+        return True
+    if compare(g, "g-value", ""):
+        # ---- invariance: permuted rows, translated particles (float-exact on the 1/1024 grid) ----
+        order = list(range(nall))
+        random.Random(inp["perm"]).shuffle(order)
+        Xp = X[order]
+        pos_of = {old: new for new, old in enumerate(order)}
+        Pp = None if P0 is None else [pos_of[i] for i in P0]
+        t = np.array(inp["shift"], dtype=float) / GQ
+        Xt = X + t
+        boxt = None if box is None else [[b[0] + t[k], b[1] + t[k]] for k, b in enumerate(box)]
+        for name, o in (("permutation", attempt(Xp, [idx[i] for i in order], box, nd, Pp, mrd_used)),
+                        ("translation", attempt(Xt, idx, boxt, nd, P0, mrd_used))):
+            if o[0] != "ok" or o[4] or len(o[2]) != nb:
+                res.violation("property-violation", "after a %s of the particles the call no longer "
+                              "returns a g(r) of the same shape (%s)" % (name, o[0]),
+                              signature=dict(stream="gr", what=name + "-variant", dim=dim))
+            elif not compare(o[2], name + "-variant", "after a %s of the particles: " % name):
+                pass
+    judged = ~skip & ~undef_bin
+    nonempty = int((judged & (og > 0)).sum())
+    res.stat("gr_nonempty_bins_judged", nonempty)
+    res.stat("gr_3d" if dim == 3 else "gr_2d")
+    for name, on in (("gr_opt_ndensity", nd is not None), ("gr_opt_max_rel_ndensity", mrd is not None),
+                     ("gr_opt_fraction_1", inp["fraction"] is not None),
+                     ("gr_opt_p_indices", P0 is not None), ("gr_opt_no_edge", not he),
+                     ("gr_cutoff_exceeds_box", cutoff > max(b[1] - b[0] for b in ebox)),
+                     ("gr_single_bin", nb == 1)):
+        if on:
+            res.stat(name)
+    if he and len(d):
+        h = np.concatenate([Psel[ii] - np.array([b[0] for b in ebf]),
+                            np.array([b[1] for b in ebf]) - Psel[ii]], axis=1)
+        res.stat("gr_edge_corrected_pairs", int((h.min(axis=1) < d).sum()))
+    res.nontrivial = nonempty >= 2
+    if res.nontrivial and not res.viol and refusals and dim == 2:
+        res.sample = dict(stream="gr", kind=inp["kind"], n=n, cutoff=cutoff, dr=dr,
+                          refusals=[r[:2] for r in refusals], g=[None if math.isnan(v) else float(v)
+                                                                 for v in g])
     return res
 
 
@@ -621,6 +1077,8 @@ def run_case(ctx, inp):
         return run_arc_case(ctx, inp)
     if s == "arcfn":
         return run_arcfn_case(ctx, inp)
+    if s == "gr":
+        return run_gr_case(ctx, inp)
     res = Result()
     res.violation("harness-error", "unknown stream %r" % s)
     return res
